@@ -176,11 +176,14 @@ pub struct Case {
     pub window_s: u8,
     pub min_delay_us: u64,
     pub syms: Vec<Sym>,
+    /// message indices as sent: 0 = position in the stream, 1 = all 0 (index-less sources), 2 = every ECU numbers from 0
+    /// (merged sources). The oracle identifies messages by their payload tag and judges the order only in mode 0.
+    pub index_mode: u8,
 }
 impl Case {
     fn json(&self) -> Value {
         json!({"family": self.family, "table": self.table.name(), "base_us": self.base_us, "window_s": self.window_s,
-            "min_delay_us": self.min_delay_us, "msgs": self.syms.iter().map(|s| s.name()).collect::<Vec<_>>()})
+            "min_delay_us": self.min_delay_us, "index_mode": self.index_mode, "msgs": self.syms.iter().map(|s| s.name()).collect::<Vec<_>>()})
     }
     fn parse(v: &Value) -> Option<Case> {
         Some(Case {
@@ -190,6 +193,7 @@ impl Case {
             window_s: v["window_s"].as_u64()? as u8,
             min_delay_us: v["min_delay_us"].as_u64()?,
             syms: v["msgs"].as_array()?.iter().map(|s| Sym::parse(s.as_str()?)).collect::<Option<Vec<_>>>()?,
+            index_mode: v["index_mode"].as_u64().unwrap_or(0) as u8,
         })
     }
 }
@@ -234,10 +238,29 @@ pub fn run_case(ctx: &mut Ctx, env: &mut Env, case: &Case) {
     let n = msgs.len();
     // ---- run the real function on a pre-filled channel
     let (tx, rx) = std::sync::mpsc::channel();
-    for m in &msgs {
-        tx.send(m.clone()).unwrap();
+    let mut per_ecu = [0u32; 2];
+    let sent_index: Vec<u32> = msgs
+        .iter()
+        .zip(case.syms.iter())
+        .map(|(m, sy)| match case.index_mode {
+            0 => m.index,
+            1 => 0,
+            _ => {
+                let e = (sy.lc / 3) as usize;
+                per_ecu[e] += 1;
+                per_ecu[e] - 1
+            }
+        })
+        .collect();
+    for (m, ix) in msgs.iter().zip(sent_index.iter()) {
+        let mut m = m.clone();
+        m.index = *ix;
+        tx.send(m).unwrap();
     }
     drop(tx);
+    if case.index_mode != 0 {
+        ctx.landmark("duplicate_indices");
+    }
     let out: RefCell<Vec<DltMessage>> = RefCell::new(Vec::with_capacity(n));
     let res = catch(|| {
         buffer_sort_messages(
@@ -251,8 +274,19 @@ pub fn run_case(ctx: &mut Ctx, env: &mut Env, case: &Case) {
             case.min_delay_us,
         )
     });
-    let out = out.into_inner();
+    let mut out = out.into_inner();
     ctx.transitions(n as u64);
+    // identify the delivered messages by their payload tag and give them their position as index again
+    let mut index_changed = None;
+    if case.index_mode != 0 {
+        for m in out.iter_mut() {
+            let p = m.payload.first().copied().unwrap_or(255) as usize;
+            if p < n && m.index != sent_index[p] {
+                index_changed = Some((p, m.index, sent_index[p]));
+            }
+            m.index = p as u32;
+        }
+    }
 
     // ---- classification (premise of the ordering clause), from the generated values only
     let calcs: Vec<Option<u64>> =
@@ -362,6 +396,10 @@ pub fn run_case(ctx: &mut Ctx, env: &mut Env, case: &Case) {
         }
         Ok(Ok(())) => {}
     }
+    if let Some((p, got, sent)) = index_changed {
+        ctx.violation("permutation", "altered", &cj, format!("message #{p} was sent with index {sent} and delivered with index {got}"));
+        return;
+    }
     let mut seen = vec![0u32; n];
     for m in &out {
         let p = m.index as usize;
@@ -399,7 +437,7 @@ pub fn run_case(ctx: &mut Ctx, env: &mut Env, case: &Case) {
     }
     let got: Vec<usize> = out.iter().map(|m| m.index as usize).collect();
     // ---- O2: ordered by (calculated time, original position) where the premise holds
-    if class == Class::Holds {
+    if class == Class::Holds && case.index_mode == 0 {
         let mut expect: Vec<usize> = (0..n).collect();
         expect.sort_by_key(|p| (calcs[*p].unwrap(), *p));
         if got != expect {
@@ -468,16 +506,19 @@ fn run_family(ctx: &mut Ctx, env: &mut Env, f: &Fam) -> bool {
         let done = enumr::sequences(len, f.sigma.len(), |ix| {
             for w in f.windows {
                 for d in &f.delays {
-                    if ctx.mine() {
-                        let case = Case {
-                            family: f.name.into(),
-                            table: f.table,
-                            base_us: f.base,
-                            window_s: *w,
-                            min_delay_us: *d,
-                            syms: ix.iter().map(|i| f.sigma[*i]).collect(),
-                        };
-                        run_case(ctx, env, &case);
+                    for im in if len <= 3 { &[0u8, 1, 2][..] } else { &[0u8][..] } {
+                        if ctx.mine() {
+                            let case = Case {
+                                family: f.name.into(),
+                                table: f.table,
+                                base_us: f.base,
+                                window_s: *w,
+                                min_delay_us: *d,
+                                syms: ix.iter().map(|i| f.sigma[*i]).collect(),
+                                index_mode: *im,
+                            };
+                            run_case(ctx, env, &case);
+                        }
                     }
                 }
             }
@@ -512,16 +553,19 @@ impl C10 {
                 let done = enumr::deviations_exact(len, k, sigma.len(), 0, &mut |ix| {
                     for w in windows {
                         for d in delays {
-                            if ctx.mine() {
-                                let case = Case {
-                                    family: "long_stream_deviations".into(),
-                                    table: TableKind::Std,
-                                    base_us: BASE,
-                                    window_s: *w,
-                                    min_delay_us: *d,
-                                    syms: ix.iter().map(|i| sigma[*i]).collect(),
-                                };
-                                run_case(ctx, env, &case);
+                            for im in if k <= 1 { &[0u8, 1][..] } else { &[0u8][..] } {
+                                if ctx.mine() {
+                                    let case = Case {
+                                        family: "long_stream_deviations".into(),
+                                        table: TableKind::Std,
+                                        base_us: BASE,
+                                        window_s: *w,
+                                        min_delay_us: *d,
+                                        syms: ix.iter().map(|i| sigma[*i]).collect(),
+                                        index_mode: *im,
+                                    };
+                                    run_case(ctx, env, &case);
+                                }
                             }
                         }
                     }
@@ -542,7 +586,7 @@ impl Prop for C10 {
         Meta {
             id: "C10",
             level: "exploration",
-            rule: "every stream of <= L messages over per-family alphabets (ECU {A,B} x lifecycle {known1, known2, id not in the table} x reception step {0, 1 s, 5 s, -1 s, ..} x timestamp grid {0, 1 s, 2 s, 30 s} or lateness grid {0, 1 s, 2 s, 20 s, 30 s} x {normal, control request}) x window {1,3,255 (2,4)} s x minimum delay {0, 1 s, 20 s} x lifecycle table (real Lifecycle objects in an evmap) is run through the real buffer_sort_messages. O1 (all cases): returns Ok and the output is a permutation of the input with every field equal. Every case is classified: premise holds (receptions never decrease, every reception - calculated time <= minimum delay) / reception decreases / a delay exceeds the minimum / calculated time undefined (normal message whose lifecycle id is not in the table); O2 (premise holds): output order = stable sort by calculated time (lifecycle start + timestamp capped at reception; reception for control requests). A case is non-trivial when sorting has something to do (input not in calculated-time order, or a tie).".into(),
+            rule: "every stream of <= L messages over per-family alphabets (ECU {A,B} x lifecycle {known1, known2, id not in the table} x reception step {0, 1 s, 5 s, -1 s, ..} x timestamp grid {0, 1 s, 2 s, 30 s} or lateness grid {0, 1 s, 2 s, 20 s, 30 s} x {normal, control request}) x window {1,3,255 (2,4)} s x minimum delay {0, 1 s, 20 s} x message index mode {position, all 0, every ECU numbering from 0 - streams up to length 3 and long streams with <= 1 deviation; messages are identified by a payload tag, order judged in position mode only} x lifecycle table (real Lifecycle objects in an evmap) is run through the real buffer_sort_messages. O1 (all cases): returns Ok and the output is a permutation of the input with every field equal. Every case is classified: premise holds (receptions never decrease, every reception - calculated time <= minimum delay) / reception decreases / a delay exceeds the minimum / calculated time undefined (normal message whose lifecycle id is not in the table); O2 (premise holds): output order = stable sort by calculated time (lifecycle start + timestamp capped at reception; reception for control requests). A case is non-trivial when sorting has something to do (input not in calculated-time order, or a tie).".into(),
             assumptions: vec![
                 "alphabets, lengths, windows, delays and tables as listed under coverage.families; window sizes >= 1 s only".into(),
                 "message indices ascend with the position in the stream; the lifecycle table does not change while the function runs".into(),
@@ -553,6 +597,7 @@ impl Prop for C10 {
             workers: 0,
             required_landmarks: vec![
                 "o2_premise_holds",
+                "duplicate_indices",
                 "o2_premise_fails_reception_decreases",
                 "o2_premise_fails_delay_above_minimum",
                 "o2_undefined_unknown_lifecycle",
@@ -661,7 +706,7 @@ impl Prop for C10 {
         for w in w3 {
             for d in d3 {
                 if ctx.mine() {
-                    let case = Case { family: "empty_stream".into(), table: TableKind::Std, base_us: BASE, window_s: *w, min_delay_us: *d, syms: vec![] };
+                    let case = Case { family: "empty_stream".into(), table: TableKind::Std, base_us: BASE, window_s: *w, min_delay_us: *d, index_mode: 0, syms: vec![] };
                     run_case(ctx, &mut env, &case);
                 }
             }
